@@ -6,7 +6,6 @@ import (
 	"io"
 	"net"
 	"os"
-	"sync"
 	"sync/atomic"
 	"syscall"
 	"time"
@@ -63,7 +62,7 @@ type Conn struct {
 // Endpoint is one end of a Conn. Tasks hold it as a net.Conn; all fields
 // except tok are kernel-only.
 type Endpoint struct {
-	tok int32
+	tokIdx int
 
 	conn   *Conn
 	Side   string // "client" or "server"
@@ -111,7 +110,7 @@ func (e *Endpoint) UsedBy(id string) bool {
 
 // Listener is a simulated listening socket.
 type Listener struct {
-	tok int32
+	tokIdx int
 
 	ID       int
 	Network  string
@@ -195,8 +194,8 @@ func (k *Kernel) newConn(l *Listener) *Conn {
 	capacity := k.cfg.PipeCap
 	up := &pipe{capacity: capacity, conn: c, dir: 0}
 	down := &pipe{capacity: capacity, conn: c, dir: 1}
-	c.Client = &Endpoint{conn: c, Side: "client", in: down, out: up}
-	c.Server = &Endpoint{conn: c, Side: "server", in: up, out: down}
+	c.Client = &Endpoint{conn: c, Side: "client", in: down, out: up, tokIdx: 2 * c.ID}
+	c.Server = &Endpoint{conn: c, Side: "server", in: up, out: down, tokIdx: 2*c.ID + 1}
 	k.Conns = append(k.Conns, c)
 	return c
 }
@@ -405,7 +404,7 @@ func (k *Kernel) listen(t *Task, network, addr string) {
 		k.complete(t, result{err: eAddrInUse})
 		return
 	}
-	l := &Listener{ID: len(k.Listeners), Network: network, Address: addr, BindSeq: k.step, BoundBy: t.id}
+	l := &Listener{ID: len(k.Listeners), Network: network, Address: addr, BindSeq: k.step, BoundBy: t.id, tokIdx: len(k.Listeners)}
 	k.ns[key] = l
 	k.Listeners = append(k.Listeners, l)
 	k.trace("listen L%d %s %s", l.ID, network, addr)
@@ -1163,7 +1162,27 @@ func Dial(network, addr string) (*Endpoint, error) {
 	return res.ep, nil
 }
 
-func (l *Listener) touch() { atomic.AddInt32(&l.tok, 1) }
+// Tokens: every method of a simulated endpoint or listener performs an atomic
+// read-modify-write on a per-object token at entry and exit, mirroring the
+// fdMutex atomics every operation on a real file descriptor performs, so that
+// the race detector orders exactly the events a real socket orders. The tokens
+// live in static tables (memory the kernel goroutine never allocated or wrote,
+// which the detector would report as a race with the allocation) and are found
+// through unobserved loads.
+const tokSlots = 1 << 12
+
+var (
+	epToks [tokSlots]int32
+	lnToks [tokSlots]int32
+)
+
+//go:norace
+func (l *Listener) tokAddr() *int32 { return &lnToks[l.tokIdx%tokSlots] }
+
+//go:norace
+func (e *Endpoint) tokAddr() *int32 { return &epToks[e.tokIdx%tokSlots] }
+
+func (l *Listener) touch() { atomic.AddInt32(l.tokAddr(), 1) }
 
 func (l *Listener) Accept() (net.Conn, error) {
 	l.touch()
@@ -1195,7 +1214,7 @@ func (l *Listener) SetDeadline(at time.Time) error {
 //go:norace
 func (l *Listener) Addr() net.Addr { return simAddr{l.Network, l.Address} }
 
-func (e *Endpoint) touch() { atomic.AddInt32(&e.tok, 1) }
+func (e *Endpoint) touch() { atomic.AddInt32(e.tokAddr(), 1) }
 
 func (e *Endpoint) Read(p []byte) (int, error) {
 	e.touch()
@@ -1207,7 +1226,18 @@ func (e *Endpoint) Read(p []byte) (int, error) {
 	if res.err != eOK {
 		return 0, mkerr("read", res.err)
 	}
-	return copy(p, res.b), nil
+	// the kernel's slice is moved into a buffer of this task by an unobserved
+	// byte loop; the write into the caller's buffer is an ordinary, observed one
+	tmp := make([]byte, len(res.b))
+	copyNorace(tmp, res.b)
+	return copy(p, tmp), nil
+}
+
+//go:norace
+func copyNorace(dst, src []byte) {
+	for i := 0; i < len(src) && i < len(dst); i++ {
+		dst[i] = src[i]
+	}
 }
 
 func (e *Endpoint) Write(p []byte) (int, error) {
@@ -1321,11 +1351,11 @@ var errCanceled = context.Canceled
 // tie between "context done" and "connection deadline reached" at the same
 // simulated instant is decided by the scheduler like everything else.
 type DeadlineCtx struct {
-	mu       sync.Mutex
 	deadline time.Time
 	hasDL    bool
 	done     chan struct{}
-	err      error
+	// state: 0 live, 1 cancelled, 2 deadline exceeded; unobserved accesses only
+	state int32
 }
 
 // NewCtx creates a context. d == 0: no deadline (cancel only).
@@ -1335,24 +1365,37 @@ func NewCtx(d time.Duration) *DeadlineCtx {
 		c.deadline = time.Now().Add(d)
 		c.hasDL = true
 	}
-	// publish the initialised fields to whoever locks mu next (the kernel's
-	// expiry event), as a timer started by this goroutine would
-	c.mu.Lock()
-	c.mu.Unlock()
 	mustSelf().syscall(request{op: opCtxNew, dctx: c, d: d})
 	return c
 }
 
+// fire ends the context. It is called by the kernel (deadline, drain) or by a
+// task (Cancel); one at a time, since only one of them runs. The close of the
+// done channel happens with race synchronisation disabled: a context expiring
+// creates no happens-before edge between unrelated goroutines in reality
+// either (the timer goroutine touches nothing else).
+//
+//go:norace
 func (c *DeadlineCtx) fire(err error) bool {
-	c.mu.Lock()
-	defer c.mu.Unlock()
-	if c.err != nil {
+	if c.state != 0 {
 		return false
 	}
-	c.err = err
+	if err == context.DeadlineExceeded {
+		c.state = 2
+	} else {
+		c.state = 1
+	}
+	raceOff()
 	close(c.done)
+	raceOn()
 	return true
 }
+
+//go:norace
+func (c *DeadlineCtx) loadState() int32 { return c.state }
+
+//go:norace
+func (c *DeadlineCtx) dl() (time.Time, bool) { return c.deadline, c.hasDL }
 
 // Cancel cancels the context from the calling task (a scheduling point first).
 func (c *DeadlineCtx) Cancel() {
@@ -1360,12 +1403,18 @@ func (c *DeadlineCtx) Cancel() {
 	c.fire(context.Canceled)
 }
 
-func (c *DeadlineCtx) Deadline() (time.Time, bool) { return c.deadline, c.hasDL }
-func (c *DeadlineCtx) Done() <-chan struct{}       { return c.done }
+func (c *DeadlineCtx) Deadline() (time.Time, bool) { return c.dl() }
+
+//go:norace
+func (c *DeadlineCtx) Done() <-chan struct{} { return c.done }
 func (c *DeadlineCtx) Err() error {
-	c.mu.Lock()
-	defer c.mu.Unlock()
-	return c.err
+	switch c.loadState() {
+	case 1:
+		return context.Canceled
+	case 2:
+		return context.DeadlineExceeded
+	}
+	return nil
 }
 func (c *DeadlineCtx) Value(key any) any { return nil }
 
